@@ -153,7 +153,9 @@ static void chain_scripts(std::vector<std::vector<JV>>&out){
   for(auto b:bases) for(auto r:refs) for(auto o:others) for(int prod=0;prod<3;++prod){ std::vector<JV> s;
     s.push_back(with_text(act("buf",{{"i",1}}),T(b))); s.push_back(with_text(act("buf",{{"i",2}}),T(r))); s.push_back(with_text(act("buf",{{"i",3}}),T(o)));
     s.push_back(act("parse",{{"s",1},{"i",1}})); s.push_back(act("parse",{{"s",2},{"i",2}})); s.push_back(act("parse",{{"s",3},{"i",3}}));
-    s.push_back(with_bool(act("add",{{"d",4},{"r",2},{"b",1}}),"o",false));                       // slot 4 = resolve(ref, base): the produced object
+    { JV a=with_bool(act("add",{{"d",4},{"r",2},{"b",1}}),"o",false); size_t idx=out.size();       // slot 4 = resolve(ref, base): the produced object
+      if(idx%5==0 && (idx/5)%2==1){ JV n; n.k=JV::NUM; n.n=1+(long long)((idx/10)%7); a.o.push_back({"fail",n}); }   // every other manager episode: the k-th request of the resolution fails (k = 1..7 in turn)
+      s.push_back(a); }
     if(prod==1) s.push_back(act("norm",{{"s",4},{"m",63}})); if(prod==2) s.push_back(act("own",{{"s",4}}));
     // consumers of slot 4, each into slot 5 (freed in between)
     s.push_back(with_bool(act("rem",{{"d",5},{"s",3},{"b",4}}),"md",false)); s.push_back(act("free",{{"s",5}}));
